@@ -5,5 +5,6 @@ CONSTANTS
   Deltas <- DeltasMC
   MaxHist = 4
   MaxLive = 2
+  EndTieDev = FALSE
 INVARIANTS PartialLatticeInv FinalLatticeInv
 CHECK_DEADLOCK FALSE
